@@ -150,13 +150,18 @@ def run_trace_job(pid, job, seed, tier, tag=""):
     gen = job["gen"](tier, seed)
     trace = os.path.join(d, f"{job['name']}-{seed}{tag}.trace")
     t0 = time.time()
-    rc, out = sh([TRACEGEN] + gen + ["--out", trace], timeout=job.get("timeout", 1500))
+    # the quick tier's traces take seconds on the unchanged tree: a generator that needs more than ten minutes
+    # is stuck on waits (reported as a finding with its command line), not worth an hour of the caller's time
+    limit = job.get("timeout", 1500)
+    if tier == "quick":
+        limit = min(limit, 600)
+    rc, out = sh([TRACEGEN] + gen + ["--out", trace], timeout=limit)
     findings = []
     if rc != 0:
         findings.append(Finding("bad", f"trace generator failed (rc={rc}): {out.strip()[-300:]}", job["name"], trace, gen=gen))
         return {"job": job["name"], "seed": seed, "findings": findings, "lines": 0, "cover": {}, "trace": trace, "gen": gen, "wall": time.time() - t0}
     with open(trace) as f:
-        rc, dout = sh([DRIVER, job["driver"]], input=f.read(), timeout=job.get("timeout", 1500))
+        rc, dout = sh([DRIVER, job["driver"]], input=f.read(), timeout=limit)
     r = parse_driver(dout)
     if r["summary"] is None:
         findings.append(Finding("bad", f"model driver produced no summary (rc={rc}): {dout.strip()[-300:]}", job["name"], trace, gen=gen))
